@@ -359,7 +359,9 @@ def init : St :=
 /-- run-time values as far as equality looks at them -/
 inductive Val
   | num (n : Int)                 -- numbers, bools (0/1), also int64/complex encoded as one number pair below
-  | pair (a b : Int)              -- int64/uint64 ($high,$low), complex ($real,$imag)
+  | pair (a b : Int)              -- int64/uint64 ($high,$low)
+  | flt (x : Option Int)          -- a float; `none` = NaN (`NaN === NaN` is false)
+  | cplx (re im : Option Int)     -- a complex number ($real,$imag); `none` = NaN component
   | str (s : Str)
   | ref (addr : Nat)              -- pointer, chan, func, map, slice object identity
   | tuple (vs : List Val)         -- struct fields in order / array elements
@@ -398,6 +400,8 @@ def valEqual (s : St) : Val → Val → Nat → EqRes
     else valEqual s va vb ta
   | .num a, .num b, _ => .ofBool (a == b)
   | .pair a b, .pair c d, _ => .ofBool (a == c && b == d)
+  | .flt a, .flt b, _ => .ofBool (a.isSome && a == b)
+  | .cplx a b, .cplx c d, _ => .ofBool (a.isSome && b.isSome && a == c && b == d)
   | .str a, .str b, _ => .ofBool (a == b)
   | .ref a, .ref b, _ => .ofBool (a == b)
   | _, _, _ => .ff
